@@ -156,7 +156,7 @@ func init() {
 			return rv(errNotInt())
 		}
 		if en == nil {
-			return rv(resp.Bulk(""))
+			return rv(w.tagRead(sc, a, a[1], ""))
 		}
 		if en.typ != "string" {
 			return rv(errWrongType())
@@ -664,7 +664,7 @@ func (w *World) tagRead(sc *SrvConn, argv []string, key, val string) resp.Value 
 	if !w.TagReads {
 		return resp.Bulk(val)
 	}
-	return resp.Bulk(strings.Join(argv, " ") + "\x1f" + strconv.Itoa(sc.Node.DBs.Epoch[key]) + "\x1f" + val)
+	return resp.Bulk(strings.Join(argv, " ") + "\x1f" + strconv.Itoa(sc.Node.DBs.Epoch[key]) + "\x1f" + strconv.Itoa(w.curExec.Seq) + "\x1f" + val)
 }
 
 func cmdGet(w *World, sc *SrvConn, e *Exec, a []string) result {
